@@ -720,3 +720,14 @@ func (f *FS) tick() {
 		panic(ErrBudget)
 	}
 }
+
+// Lookup resolves a path in the live (volatile) view; nil if absent.
+func (f *FS) Lookup(path string) *Inode {
+	f.mu.Lock()
+	defer f.mu.Unlock()
+	n, err := f.lookup(path)
+	if err != nil {
+		return nil
+	}
+	return n
+}
